@@ -18,17 +18,17 @@ claimed = {
  "C08": dict(text="Bounded model checking (Int mode: mathematical integers with explicit wrap-around, quotient variables, products abstracted to shared bounded variables) of the 5x52 field arithmetic against the ring Z/p: "
                   "Mul and Sqr for all operands of magnitude <= 8, Normalize for all limbs < 2^60 (canonical output, value preserved mod p), SetAdd / MulInt / Negate within their magnitude contracts, SetB32/GetB32 round trip and value.",
              ref="6/C08", note=NOTE + "Most of these obligations are discharged by the engine's canonical linear forms and interval arithmetic before a query is needed (reported per assertion in the evidence as folded); the group law, scalar code and tables (L1-L3) are not yet covered. "),
- "C13": dict(text="Bounded model checking (Int mode) of the wallet's payment arithmetic: parse_spend + make_signed_tx on a request 'addr=0.dddddddd' with eight arbitrary digits, arbitrary fee, -f and -useallinputs, two owned outputs of arbitrary value: "
-                  "what is written pays exactly the requested amount (minus fee under -f, never wrapping), change = inputs - payment - fee to the change address, inputs are owned and only as many as needed; otherwise the tool exits before writing.",
+ "C13": dict(text="Bounded model checking (Int mode) of the wallet's payment arithmetic: parse_spend + make_signed_tx on requests of one or two destinations with amount strings of several shapes (0.dddddddd, integers of 1..3 (thorough 8, 12) digits, D.d, DD.dddd, 'D.', '.dddddddd', 12+8 digits; all digits arbitrary), arbitrary fee below 1 BTC, -f and -useallinputs, two owned outputs of arbitrary value: "
+                  "what is written pays every destination exactly the requested amount (the first minus the fee under -f, never wrapping), requests above all funds are refused, change = inputs - payment - fee to the change address, inputs are owned and only as many as needed; otherwise the tool exits before writing.",
              ref="6/C13", note=NOTE + "sign_tx, write_tx_file and cleanExit are stubs under the engine (native replays use the real ones and read the written file back). Signature linkage and raw-transaction immutability are not yet covered. "),
- "C04": dict(text="Bounded model checking of block connection (commitTxs via ProcessBlockTransactions, with the context-free CheckTransaction rules in front as in PostCheckBlock) for a block of coinbase + 1..2 transactions "
+ "C04": dict(text="Bounded model checking of block connection (commitTxs via ProcessBlockTransactions, with the context-free CheckTransaction rules in front as in PostCheckBlock) for a block of coinbase + 1..2 transactions (inputs may name the pre-state, the block's own coinbase and every transaction of the block: only an earlier one is spendable) "
                   "over a symbolic UTXO pre-state satisfying the representation invariant, arbitrary script verdicts, values compared as mathematical integers (Int mode): every input exists and is unspent, "
                   "no double spend, no spend of the block's own coinbase, coinbase maturity, money range of every output and total, inputs cover outputs, coinbase claim <= subsidy + fees; subsidy schedule for every height.",
              ref="6/C04", note=NOTE + "Outside: BIP68 relative lock-times and the sigop-cost limit (not asserted by this harness), blocks larger than the bound, the UTXO database commit itself. "),
  "C05": dict(text="Bounded model checking of header/structure rules, each against a transcription of Bitcoin Core's rule: median-time-past over 1..11 ancestors, PreCheckBlock acceptance (PoW verdict, required bits, "
                   "time-too-old / time-too-new with a symbolic clock, signed version gating, height/MTP bookkeeping), unknown-parent handling, verification-flag schedule, BIP34 height prefix for every uint32, "
-                  "IsFinalTx, Merkle root and the CVE-2012-2459 mutation flag for up to 5 (8) symbolic leaves.",
-             ref="6/C05", note=NOTE + "Proof-of-work arithmetic (compact target, retarget) and the witness commitment are not yet covered by these harnesses; PoW and required-bits are stubs with arbitrary results in PreCheckBlock. "),
+                  "IsFinalTx, Merkle root and the CVE-2012-2459 mutation flag for up to 5 (8) symbolic leaves, compact-target decoding (SetCompact: negative, overflow, zero) for every 32-bit value and the hash <= target comparison.",
+             ref="6/C05", note=NOTE + "Difficulty retargeting and the witness commitment are not yet covered by these harnesses; PoW and required-bits are stubs with arbitrary results in PreCheckBlock. "),
  "C10": dict(text="Bounded model checking of the UTXO record codecs: serialize -> parse and single-output lookup round trips in the plain and the compressed format for records of 1..3 output slots "
                   "(each present or spent), scripts from eight families (arbitrary short, P2PKH/P2SH/compressed-P2PK templates with symbolic payload, same-length near misses, CompactSize-boundary lengths), symbolic txid/height/flags/values.",
              ref="6/C10", note=NOTE + "Outside: snapshot file I/O, uncompressed-key P2PK compression (curve arithmetic), more than 3 outputs. "),
@@ -41,12 +41,14 @@ claimed = {
              ref="6/C18", note=NOTE + "Senders, counters and deep callees (ProcessNewHeader, block store, mempool effects) are stubs with arbitrary results; listed per harness in the evidence. "),
  "C01": dict(text="Bounded model checking of the script interpreter's leaf predicates against transcriptions of Bitcoin Core's: script-number decode/encode, CastToBool, "
                   "BIP66 DER / low-S / hash-type gates, public-key encoding gates, minimal-push rule, opcode fetch, push-only, witness-program and P2SH templates, BIP112 CheckSequence; "
-                  "every byte string up to the per-harness length bound, all flag subsets.",
+                  "every byte string up to the per-harness length bound, all flag subsets; one executed opcode of the real evalScript (about 80 opcodes: stack, arithmetic/comparison, reserved/disabled/unknown, hash, NOP, CLTV, CSV) "
+                  "from an arbitrary stack of depth <= 4 against a reference step function (verdict and resulting stack).",
              ref="6/C01", note=NOTE + "The reference predicates (ref_* in harness/lib/script) are hand transcriptions of Core's and are part of the trusted base. "),
- "C15": dict(text="Bounded model checking of segwit address coding: encode->decode identity for every witness version / legal program length / program; refusal of illegal destinations; "
+ "C15": dict(text="Bounded model checking of address coding: Base58 encode->decode for payloads of 0..3 and 25 bytes and decode->encode / alphabet refusal for strings of 1..2 characters; segwit address coding: encode->decode identity for every witness version / legal program length / program; refusal of illegal destinations; "
                   "decode->re-encode identity and BIP173/BIP350 rule conformance for every string of the tier's lengths (checksum reasoning by GF(2) elimination in the engine, everything else by z3).",
              ref="6/C15", note=NOTE + "The BCH checksum constraint is kept in solved form by the engine's GF(2) elimination; models are still produced and checked by the solver. "),
- "C09": dict(text="Bounded model checking of the wire codecs: CompactSize family over all uint64 / all byte strings up to 9 bytes; "
+ "C09": dict(text="Bounded model checking of the wire codecs: CompactSize family over all uint64 / all byte strings up to 9 bytes; NewTx on every byte string up to 64 (thorough 110) bytes "
+                  "(re-encoding identity, agreement with a transcription of Bitcoin Core's deserialiser in both directions, TxSize, sizes/weight, allocation monitor); NewBlock + BuildTxList on short blocks (header, transaction count, allocation); "
                   "every path's assertions decided by z3 for all inputs of that path; counterexamples replayed on the native build.",
              ref="6/C09", note=NOTE),
 }
@@ -59,7 +61,7 @@ na = {
  "C16": "real-file I/O with a background writer; snappy resolves to assembly on amd64 (no SSA) (DESIGN.md 6/C16)",
  "C17": "maps of maps driven by callbacks from parallel UTXO workers over block histories (DESIGN.md 6/C17)",
  "C19": "file operations and crash points of the embedded key-value store (DESIGN.md 6/C19)",
- "C20": "not yet built in this revision (planned: DESIGN.md 6/C20)",
+ "C20": "the allocator hands out uintptr addresses inside mmap'ed pages and casts them to typed pointers; deciding it needs a raw-memory model (byte-addressed pages aliasing typed objects) that this go/ssa encoder does not have, and the routing arithmetic alone is not the property (DESIGN.md 0.3, 6/C20)",
 }
 
 checks = []
